@@ -58,6 +58,7 @@ class Obs:
         self.client_wedged: str | None = None
         self.stage_at_fault: list[str] = []
         self.reuse_probes: list[dict[str, Any]] = []
+        self.lost_not_closed: list[str] = []
 
     def signature(self) -> str:
         parts: list[Any] = []
@@ -423,8 +424,12 @@ class Runner:
                 else:
                     sim.inject(p["k"], where, lambda f=f: self.apply_fault(f))
             else:
-                if f["kind"] in NET_FAULTS:
+                if f["kind"] in NET_FAULTS or f["kind"].startswith("chunk:"):
                     sim.net.at(p["t"], lambda f=f: self.apply_fault(f))
+                elif p.get("after_io"):
+                    # a user action in the SAME loop iteration as the network events of this instant, but behind them: a zero-delay timer
+                    # (asyncio runs ready handles, then I/O callbacks, then due timers)
+                    sim.net.at(p["t"], lambda f=f: sim.loop.call_at(sim.loop.time(), lambda: self.apply_fault(f)))
                 else:
                     sim.at(p["t"], lambda f=f: self.apply_fault(f))
 
@@ -458,6 +463,14 @@ class Runner:
             o = v.obj
             if o.is_connected != (o.connection_state.name == "CONNECTED"):
                 self.obs.invariant_breaks.append(f"iter {sim.iter}: is_connected={o.is_connected} state={o.connection_state.name}")
+        # a transport whose connection_lost was delivered is a close cause: at the end of that instant the connection must be CLOSED
+        if sim.end_of_instant():
+            for t in sim.transports:
+                if t.sim_lost_seq is not None and not getattr(t, "_vf_lost_checked", False):
+                    t._vf_lost_checked = True  # type: ignore[attr-defined]
+                    c = t._sim_conn  # noqa: SLF001
+                    if c is not None and c.connection_state.name != "CLOSED":
+                        self.obs.lost_not_closed.append(f"t={sim.clock:.6f}: transport {t._sim_id} lost, connection still {c.connection_state.name}")  # noqa: SLF001
         pend = [v for v in sim.conns if v.closed_seq is not None and not v.audited]
         if pend and sim.end_of_instant():
             for v in pend:
